@@ -180,10 +180,11 @@ RowOps(sc) ==
                \cup {<<[op |-> "shift", n |-> 1], sc>>, <<[op |-> "diff", n |-> 1], sc>>, <<[op |-> "ffill"], sc>>}
           ELSE {})
     \cup (IF sc.kind = "frame"
-          THEN (IF sc.ord THEN {<<[op |-> "dropdup", subset |-> <<sc.cols[Len(sc.cols)]>>], [sc EXCEPT !.ord = FALSE]>>} ELSE {})
-               \* keep="first" on a subset is only determined when the input row order is
-               \cup {<<[op |-> "dropdup", subset |-> <<>>], [sc EXCEPT !.ord = FALSE, !.tainted = sc.tainted \/ ~sc.closed]>>,
-                <<[op |-> "nlargest", n |-> 2, col |-> sc.cols[1]], [sc EXCEPT !.ord = FALSE]>>}
+          THEN (IF sc.ord
+                THEN {<<[op |-> "dropdup", subset |-> <<sc.cols[Len(sc.cols)]>>], [sc EXCEPT !.ord = FALSE]>>,   \* keep="first" needs a defined input order
+                      <<[op |-> "nlargest", n |-> 2, col |-> sc.cols[1]], [sc EXCEPT !.ord = FALSE]>>}           \* ties are broken by input order
+                ELSE {})
+               \cup {<<[op |-> "dropdup", subset |-> <<>>], [sc EXCEPT !.ord = FALSE, !.tainted = sc.tainted \/ ~sc.closed]>>}
           ELSE {<<[op |-> "unique"], [sc EXCEPT !.ord = FALSE, !.idx = FALSE]>>,
                 <<[op |-> "valuecounts"], [sc EXCEPT !.ord = FALSE, !.idx = TRUE, !.name = "count"]>>})
 
@@ -216,6 +217,14 @@ Apply == /\ depth < MaxOps
          /\ depth' = depth + 1
 Next == Apply
 Spec == Init /\ [][Next]_vars
+
+(***************************************************************************)
+(* Partition layouts (C02): every way of cutting n rows into at most       *)
+(* MaxCuts+1 consecutive partitions, empty partitions included: a layout   *)
+(* is a non-decreasing sequence of cut positions in 0..n.                  *)
+(***************************************************************************)
+Layouts(n, maxcuts) == UNION {{s \in [1..m -> 0..n] : \A i \in 1..(m - 1) : s[i] <= s[i + 1]} : m \in 0..maxcuts}
+EmitLayouts(file, n, maxcuts) == ndJsonSerialize(file, SetToSeq({[cuts |-> s] : s \in Layouts(n, maxcuts)}))
 
 (* emitting: one line per reachable state *)
 Emit == PrintT("CASE|" \o ToJson([q |-> q, sc |-> sc, depth |-> depth]))
